@@ -24,6 +24,9 @@ def main():
     demo_file, pkg_dir = m.group(1), m.group(2)
     tg = re.search(r'-tags[ =](\w+)', notes)
     tags = ('-tags %s ' % tg.group(1)) if tg else ''
+    seg = notes[m.end():m.end() + t.end()]
+    if re.search(r'go test[^\n`]*-race', seg):
+        tags = '-race ' + tags
     demo_cmd = 'cp MUTATIONS/%s/demo/%s %s/ && go test -count=1 -timeout 120s %s./%s -run \'%s\'' % (mname, demo_file, pkg_dir, tags, pkg_dir, t.group(1))
     copied = os.path.join(wt, pkg_dir, demo_file)
     def clean():
